@@ -344,6 +344,16 @@ def m_foreign_tokens(draw, ir):
         where["doc"] = "%s %s %s" % (where["doc"], tok, draw(st.sampled_from(WORDS)))
 
 
+def m_foreign_tokens_strong(draw, ir):
+    """Prose or summary that literally contains a section token of (another) docstring style."""
+    tok = draw(st.sampled_from(("Args:", "Returns:", "Kwargs:", "Raises:", ":param x:", ":returns:", ":type x:")))
+    where = _pick(draw, ir["params"], lambda p: "doc" in p)
+    if where is None or draw(st.booleans()):
+        ir["doc"] = "%s (see %s below)" % (ir["doc"], tok)
+    else:
+        where["doc"] = "%s (see %s below)" % (where["doc"], tok)
+
+
 def m_default_words(draw, ir):
     p = _pick(draw, ir["params"], lambda p: "doc" in p)
     if p is not None:
@@ -612,6 +622,8 @@ def param_tags(p, prev_has_default=False):
                 t.add("optional_prose_plain_type")
         if any(tok in doc for tok in ("Args", "Returns", "Parameters", "Raises", "param", "Kwargs")):
             t.add("foreign_tokens")
+        if any(tok in doc for tok in ("Args:", "Returns:", "Kwargs:", "Raises:", ":param", ":returns:", ":type")):
+            t.add("foreign_tokens_strong")
     return t
 
 
@@ -649,6 +661,8 @@ def tags_of(ir):
         tags.add("long_summary")
     if any(tok in doc for tok in ("Args", "Returns", "Parameters", "Raises", "param", "Kwargs")):
         tags.add("foreign_tokens")
+    if any(tok in doc for tok in ("Args:", "Returns:", "Kwargs:", "Raises:", ":param", ":returns:", ":type")):
+        tags.add("foreign_tokens_strong")
     tags.add("nparams=%d" % min(len(ir["params"]), 6))
     return tags, per
 
